@@ -19,4 +19,40 @@ theorem C06_src_nodeCentrality (sp : List (Nat × Int)) (numNodes : Nat) (wf : B
   unfold nodeCentrality Src.C06.ccGuard Src.C06.ccReached Src.C06.ccPlain Src.C06.ccWfFactor
   simp only [Bool.and_eq_true, decide_eq_true_eq, Int.cast_pos]
 
+
+/-! ### the weighted search stage: the tests of the source, with `f64::MAX` as the "not yet" sentinel -/
+
+/-- how the model's `Option` reads as the f64 of the code: `none` is the sentinel `f64::MAX` -/
+def C06emb (fmax : Rat) : Option Int → Rat
+  | none => fmax
+  | some x => (x : Rat)
+
+theorem C06_src_stageDist (dist cost : Int) : ((dist + cost : Int) : Rat) = Src.C06.stageDist dist cost := by
+  unfold Src.C06.stageDist; push_cast; ring
+
+/-- **the improvement test of the model is the source's** `D[w] == f64::MAX && (seen[w] == f64::MAX || vw_dist < seen[w])`,
+    for every value `fmax` of the sentinel that no stored label takes -/
+theorem C06_src_stageImproves (fmax : Rat) (dW seenW : Option Int) (vw : Int)
+    (hd : ∀ x, dW = some x → (x : Rat) ≠ fmax) (hs : ∀ x, seenW = some x → (x : Rat) ≠ fmax) :
+    (dW.isNone && (match seenW with | none => true | some sw => decide (vw < sw)))
+      = Src.C06.stageImproves (C06emb fmax dW) (C06emb fmax seenW) (vw : Rat) fmax := by
+  unfold Src.C06.stageImproves
+  cases dW with
+  | some x => simp [C06emb, hd x rfl]
+  | none =>
+    cases seenW with
+    | none => simp [C06emb]
+    | some sw => simp [C06emb, hs sw rfl, Int.cast_lt]
+
+/-- the tie test `vw_dist == seen[w]` (a tentative distance is never the sentinel) -/
+theorem C06_src_stageTie (fmax : Rat) (seenW : Option Int) (vw : Int) (hv : (vw : Rat) ≠ fmax) :
+    (seenW == some vw) = Src.C06.stageTie (vw : Rat) (C06emb fmax seenW) := by
+  unfold Src.C06.stageTie
+  cases seenW with
+  | none => simp [C06emb, hv]
+  | some sw =>
+    rw [Bool.eq_iff_iff]
+    simp only [C06emb, beq_iff_eq, Option.some.injEq, decide_eq_true_eq, Int.cast_inj]
+    exact eq_comm
+
 end Graphrs
